@@ -27,10 +27,16 @@ WSDL_ENCODED = """<wsdl:definitions xmlns:wsdl="http://schemas.xmlsoap.org/wsdl/
 </wsdl:definitions>
 """
 
+class Link(str):
+    """file content that is reached through a symbolic link (the content lives outside the project directory)"""
+
+
 INPUTS = {
     # name: (files, start, expected to succeed)
     "ok": ({"main.xsd": OK_XSD, "other.xsd": OTHER_XSD}, "main.xsd", True),
     "ok-unrelated-siblings": ({"main.xsd": OK_XSD, "other.xsd": OTHER_XSD, "junk.xsd": "<<< not xml", "notes.txt": "hello", "broken.xml": "<a>"}, "main.xsd", True),
+    "ok-imported-file-is-a-symlink": ({"main.xsd": OK_XSD, "other.xsd": Link(OTHER_XSD)}, "main.xsd", True),
+    "ok-start-file-is-a-symlink": ({"main.xsd": Link(OK_XSD), "other.xsd": OTHER_XSD}, "main.xsd", True),
     "missing-input": ({"other.xsd": OTHER_XSD}, "main.xsd", False),
     "malformed-xml": ({"main.xsd": OK_XSD.replace("</xs:schema>", ""), "other.xsd": OTHER_XSD}, "main.xsd", False),
     "malformed-import": ({"main.xsd": OK_XSD, "other.xsd": "<xs:schema"}, "main.xsd", False),
@@ -41,9 +47,16 @@ INPUTS = {
 }
 
 
-def write_files(d, files):
+def write_files(d, files, follow_links=False):
     os.makedirs(d, exist_ok=True)
     for n, t in files.items():
+        if isinstance(t, Link) and not follow_links:
+            shared = os.path.join(os.path.dirname(os.path.abspath(d)), "shared-" + os.path.basename(d))
+            os.makedirs(shared, exist_ok=True)
+            with open(os.path.join(shared, n), "w") as f:
+                f.write(t)
+            os.symlink(os.path.join(shared, n), os.path.join(d, n))
+            continue
         mode = "wb" if isinstance(t, bytes) else "w"
         with open(os.path.join(d, n), mode) as f:
             f.write(t)
@@ -81,7 +94,7 @@ def run(tier, seed):
     for iname, (files, start, should_succeed) in inputs.items():
         # the library's bytes for the same file contents (only what the CLI registers: start + *.xsd siblings)
         lib_dir = os.path.join(root, "lib", iname)
-        write_files(lib_dir, {k: v for k, v in files.items() if k == start or k.endswith(".xsd")})
+        write_files(lib_dir, {k: v for k, v in files.items() if k == start or k.endswith(".xsd")}, follow_links=True)
         rcl, lout, _ = sh([ZV, "gen", lib_dir, start, os.path.join(root, "lib", iname + ".rs")])
         lib_ok = lout.strip().startswith("ok")
         if any(isinstance(v, bytes) for k, v in files.items() if k.endswith(".xsd") or k == start):
@@ -95,7 +108,11 @@ def run(tier, seed):
         if tier == "quick" and iname.startswith("generated"):
             spellings = ["bare", "relative-dir"]
         for spelling in spellings:
-            for outmode in ("default", "explicit"):
+            outmodes = ["default", "explicit"]
+            if spelling in ("bare", "absolute") and not iname.startswith("generated"):
+                # `--output` is taken literally: whatever its extension, or none
+                outmodes += ["explicit:result.inc", "explicit:bindings", "explicit:orders.rs.in"]
+            for outmode in outmodes:
                 for oldname, oldtext in OLD.items():
                     if tier == "quick" and oldname == "shorter" and spelling not in ("bare", "absolute"):
                         continue
@@ -113,8 +130,8 @@ def run(tier, seed):
                         cwd, ipath = proj, start
                     else:
                         cwd, ipath = proj, os.path.join("..", "proj", start)
-                    if outmode == "explicit":
-                        opath_abs = os.path.join(work, "out", "result.rs")
+                    if outmode.startswith("explicit"):
+                        opath_abs = os.path.join(work, "out", outmode.partition(":")[2] or "result.rs")
                         os.makedirs(os.path.dirname(opath_abs), exist_ok=True)
                         args = ["--input", ipath, "--output", opath_abs if spelling == "absolute" else os.path.relpath(opath_abs, cwd)]
                     else:
@@ -124,7 +141,7 @@ def run(tier, seed):
                         oldtext = ("/" * len(lib_bytes)) if lib_bytes else "// stale\n"
                     if oldtext is not None:
                         open(opath_abs, "w").write(oldtext)
-                    before_listing = sorted(os.listdir(proj))
+                    before_listing = sorted(os.listdir(proj)) + (sorted(os.listdir(os.path.dirname(opath_abs))) if os.path.isdir(os.path.dirname(opath_abs)) else [])
                     try:
                         p = subprocess.run([BIN] + args, cwd=cwd, capture_output=True, text=True, timeout=120)
                         code = p.returncode
@@ -141,6 +158,12 @@ def run(tier, seed):
                             problem = f"the library accepts these files but the tool exited with {code}: {(p.stderr or '')[-200:]}"
                         elif after != lib_bytes:
                             problem = f"output differs from the library's bytes ({None if after is None else len(after)} vs {len(lib_bytes)} bytes)"
+                        else:
+                            # nothing else appears next to the output (e.g. the bytes written under another name)
+                            now = sorted(os.listdir(proj)) + (sorted(os.listdir(os.path.dirname(opath_abs))) if os.path.isdir(os.path.dirname(opath_abs)) else [])
+                            extra_files = [f for f in now if f not in before_listing and f != os.path.basename(opath_abs)]
+                            if extra_files:
+                                problem = f"the run created {extra_files} next to the requested output"
                     else:
                         if code == 0:
                             problem = "generation fails in the library but the tool exited with status 0"
